@@ -43,7 +43,7 @@ def with_layout(rng, P):
         return P
     if P == '-':
         return rng.choice(['-', '-@c'])
-    return P + rng.choice(['', '@f', '@m', '@l', '@m', '@l'])
+    return P + rng.choice(['', '@f', '@m', '@l', '@m', '@l', '@u', '@u'])
 
 
 RX_FLAGS = {
